@@ -104,6 +104,17 @@ func zzLiteralOrigin() []string {
 func zzDrawScenario(enabled []int) zzScen {
 	thorough := zzTier() >= 1
 	s := zzScen{}
+	if f := zzDevFocus(); f >= 0 {
+		// development aid only (never set by a registered command): one scenario
+		only := []int{}
+		for _, e := range enabled {
+			if e == f {
+				only = append(only, e)
+			}
+		}
+		enabled = only
+		zzAssume(len(enabled) > 0)
+	}
 	s.focus = enabled[zzChoose(len(enabled))]
 	l := zzBaseLimits()
 	q := zzQuickLimits()
@@ -234,7 +245,7 @@ func zzDrawScenario(enabled []int) zzScen {
 		case 1:
 			acrh = []string{"x-a"}
 		default:
-			acrh = []string{"x-b", "x-q"}
+			acrh = []string{"x_b", "x-q"}
 		}
 		var acrpn []string
 		hasP := zzChoose(2) == 1
